@@ -65,6 +65,38 @@ def run_mutant(patch_path, tier="quick", units=None, run_tests=True):
         shutil.rmtree(out_dir, ignore_errors=True)
 
 
+def seeded(props, only=None):
+    """Run the owning quick check against every /verif/seeded/<id>/patch.diff
+    (applied to a scratch copy, never to /repo)."""
+    sdir = os.path.join(env.VERIF_DIR, "seeded")
+    results = []
+    for d in sorted(os.listdir(sdir)):
+        meta_p = os.path.join(sdir, d, "meta.json")
+        if not os.path.exists(meta_p):
+            continue
+        meta = json.load(open(meta_p))
+        if meta["property"] not in props or (only and only not in d):
+            continue
+        tmp_patch = os.path.join(tempfile.gettempdir(), "seeded_%s.patch" % d)
+        with open(tmp_patch, "w") as f:
+            f.write("# %s: breaks %s - seeded\n" % (d, meta["property"]))
+            f.write(open(os.path.join(sdir, d, "patch.diff")).read())
+        try:
+            rec = run_mutant(tmp_patch)
+        finally:
+            os.unlink(tmp_patch)
+        rec["mutant"] = d
+        results.append(rec)
+        print(json.dumps(rec, sort_keys=True), flush=True)
+    missed = [r for r in results if not r.get("detected")]
+    print("seeded: %d changes, %d detected, %d missed: %s" % (len(results), len(results) - len(missed), len(missed),
+                                                              [r["mutant"] for r in missed]))
+    with open(os.path.join(sdir, "RESULTS.json"), "w") as fo:
+        json.dump({"repo_head": subprocess.run(["git", "-C", env.REPO, "rev-parse", "--short", "HEAD"], capture_output=True,
+                                               text=True).stdout.strip(), "results": results}, fo, indent=1, sort_keys=True)
+    return 0 if not missed else 1
+
+
 def sensitivity(props, only=None, units=None):
     mdir = os.path.join(env.VERIF_DIR, "mutants")
     patches = sorted(f for f in os.listdir(mdir) if f.endswith(".patch"))
@@ -110,4 +142,6 @@ def main(args):
     props = [p for p in args.props.split(",") if p]
     if args.what == "sensitivity":
         return sensitivity(props, only=getattr(args, "only", None))
+    if args.what == "seeded":
+        return seeded(props, only=getattr(args, "only", None))
     return determinism(props, args.units)
